@@ -19,6 +19,7 @@ from __future__ import annotations
 
 import ast
 import collections
+import functools
 import operator
 
 from .core import AnalysisError, txt
@@ -477,6 +478,8 @@ def _namedtuple(typename, field_names, *, rename=False, defaults=None,
 # standard-library names an interpreted module may use for plain data
 BUILTINS.update({
     "namedtuple": _namedtuple,
+    "functools": NS("functools", partial=functools.partial),
+    "partial": functools.partial,
     "collections": NS("collections", namedtuple=_namedtuple,
                       OrderedDict=dict),
 })
@@ -1179,7 +1182,8 @@ def numpy_model(**extra):
     d = dict(isnan=_np_isnan, isinf=_np_isinf,
              isfinite=lambda a: ~(_np_isnan(a) | _np_isinf(a)),
              where=_np_where, all=_np_all, any=_np_any, array=_np_array,
-             asarray=_np_asarray, ones=_np_ones, zeros=_np_zeros, copy=_np_copy,
+             asarray=_np_asarray, ones=_np_ones, zeros=_np_zeros,
+             copy=_np_copy,
              arange=_np_arange, min=lambda a: min(list(a)),
              max=lambda a: max(list(a)), flatnonzero=lambda a: _np_where(a)[0],
              count_nonzero=lambda a: sum(1 for x in a if x),
